@@ -319,6 +319,29 @@ func c20One(env *fw.Env, i int64) {
 		env.Violate("link-dropped", "the fault-free part lost the link", cs)
 		return
 	}
+	// one reply-expected transaction is left open ACROSS the Deselect (the peer never answers it): its T3 expires while
+	// the link is not selected — still a timed-out send (error counter +1). Host role only: an equipment would also
+	// attempt an S9F9 here, which the not-selected gate refuses and counts.
+	var held *c20Call
+	var hwg sync.WaitGroup
+	if !cs.Equip && i%2 == 0 {
+		held = &c20Call{token: fmt.Sprintf("c20x-%d-held-across-deselect", i), shape: 0}
+		hwg.Add(1)
+		go func() {
+			defer hwg.Done()
+			rep, err := rg.Conn.SendDataMessage(context.Background(), 2, 1, true, secs2.A(held.token))
+			held.err, held.reply = err, rep != nil
+		}()
+		waitFor(3*time.Second, func() bool {
+			for _, ev := range pc.Log() {
+				if ev.Frame.IsData() && c06Token(ev.Frame) == held.token {
+					return true
+				}
+			}
+
+			return false
+		})
+	}
 	// a Deselect window: calls here are refused (drop+1 each), none reaches the wire
 	_ = pc.Send(peer.DeselectReq(0x1234, 0xDE5E0001))
 	if !waitState(rg.Conn, hsms.NotSelectedState, 10*time.Second) {
@@ -326,6 +349,11 @@ func c20One(env *fw.Env, i int64) {
 		return
 	}
 	callsA = append(callsA, runCalls("a2", 2)...)
+	if held != nil {
+		hwg.Wait() // T3 (200 ms) runs out inside the window
+		callsA = append(callsA, held)
+		env.Event("t3_expired_while_not_selected", 1)
+	}
 	// data frames the peer sends while the link is NOT selected are answered Reject(4): they are not "received"
 	for k := 0; k < 1+int(i%3); k++ {
 		_ = pc.Send(peer.Data(5, 1, false, 0x1234, 0xD5000000|uint32(k), c06Body("while-deselected")))
